@@ -1,5 +1,6 @@
 (* Props/C03.v — the theorems that decide property C03.  Statements only. *)
 From CKB Require Import Chain.Rules Chain.RulesProofs Chain.ProposalProofs Chain.ForkChoice Chain.ForkChoiceProofs.
+From CKB Require Tx.Cache Tx.CacheCycles.
 Local Open Scope N_scope.
 
 (* The acceptance pipeline (header check, structure, contextual verifiers in
@@ -59,6 +60,22 @@ Proof. exact invalid_never_canonical. Qed.
 Theorem c03_example : block_rules ex_block /\ block_pipeline ex_block = true /\ block_pipeline ex_block_bad_uncle = false.
 Proof. exact ex_rules. Qed.
 
+(* The block cycle limit (structure rule "cycle limits"; the transactions verdict is an input bit of
+   block_rules above): BlockTxsVerifier sums the cycles of all committed transactions, cached or not,
+   and the entries are cached before the comparison.  A block over max_block_cycles is refused cold and
+   refused again when its transactions are in the verification cache; with the sum taken over freshly
+   verified transactions only it would be accepted the second time. *)
+Theorem c03_block_over_cycle_limit_refused_twice :
+  let '(v1, c1) := CacheCycles.cy_vb [] tt false CacheCycles.cy_block in
+  let '(v2, _) := CacheCycles.cy_vb c1 tt false CacheCycles.cy_block in
+  v1 = None /\ v2 = None /\ Cache.lookup c1 1%N = Some (Cache.mkC 6 1) /\ Cache.lookup c1 2%N = Some (Cache.mkC 6 1).
+Proof. exact CacheCycles.block_over_cycle_limit_refused_twice. Qed.
+Theorem c03_cycle_sum_of_fresh_only_refuted :
+  let '(v1, c1) := CacheCycles.cy_vb_fresh [] tt false CacheCycles.cy_block in
+  let '(v2, _) := CacheCycles.cy_vb_fresh c1 tt false CacheCycles.cy_block in
+  v1 = None /\ v2 = Some [Cache.mkC 6 1; Cache.mkC 6 1] /\ Cache.sum_cycles [Cache.mkC 6 1; Cache.mkC 6 1] = 12%N.
+Proof. exact CacheCycles.fresh_sum_refuted. Qed.
+
 Redirect "out/C03.c03_pipeline_iff_rules" Print Assumptions c03_pipeline_iff_rules.
 Redirect "out/C03.c03_uncles_loop_iff" Print Assumptions c03_uncles_loop_iff.
 Redirect "out/C03.c03_median_spec" Print Assumptions c03_median_spec.
@@ -66,3 +83,5 @@ Redirect "out/C03.c03_commit_window" Print Assumptions c03_commit_window.
 Redirect "out/C03.c03_refused_no_effect" Print Assumptions c03_refused_no_effect.
 Redirect "out/C03.c03_invalid_never_canonical" Print Assumptions c03_invalid_never_canonical.
 Redirect "out/C03.c03_example" Print Assumptions c03_example.
+Redirect "out/C03.c03_block_over_cycle_limit_refused_twice" Print Assumptions c03_block_over_cycle_limit_refused_twice.
+Redirect "out/C03.c03_cycle_sum_of_fresh_only_refuted" Print Assumptions c03_cycle_sum_of_fresh_only_refuted.
